@@ -31,7 +31,11 @@ def handle (j : Json) : Except String Json := do
       | some o => o.filterMap (fun k => rem[k]?)
       | none => rem
     let m := rankedMask ord pts req
-    return Json.mkObj [("ok", true), ("model_mask", ofBools m)]
+    let idx := if 0 < req ∧ req < pts.length then rankedIdx ord pts req.toNat else []
+    -- specification side: first `req` indices of the concatenated fronts (theorem C11_ranked_fronts)
+    let spec := ((fronts ord pts.length (rowsOf pts)).flatten).take req.toNat
+    return Json.mkObj [("ok", true), ("model_mask", ofBools m), ("model_idx", ofNats idx),
+      ("spec_idx", ofNats spec)]
   | _ => throw s!"unknown op {op}"
 
 def main : IO Unit := serveFn handle
